@@ -105,6 +105,13 @@ def gen_case(rng: random.Random, tier: str, bias: str = ''):
             addr += 2
         addr += 1
         objs.append(o)
+    # two independent manager servers in 40 % of the cases: every object lives on one of them; proxies of objects of
+    # one server travel as arguments / stored values into calls on objects of the other.  Otherwise, in a quarter of
+    # the cases, the single manager has an explicit authkey that differs from the processes' own key.
+    two = bias == 'two' or (bias != 'authkey' and rng.random() < 0.4)
+    akey = bias == 'authkey' or (not two and rng.random() < 0.25)
+    for o in objs:
+        o['srv'] = rng.choice(['A', 'B']) if two else 'A'
     n_clients = rng.choice([2, 2, 3])
     clients = [str(c) for c in range(n_clients)]
     n_ops = rng.choice([3, 6, 12]) if not big else rng.choice([12, 30, 60])
@@ -353,7 +360,7 @@ def gen_case(rng: random.Random, tier: str, bias: str = ''):
         else:
             steps.append(dict(who=c, h=h, addr=a, m='cget', py=['get', []], final=True))
             steps.append(dict(who=c, h=h, addr=a, m='snapshot', py=['snapshot', []], final=True))
-    return dict(kind='proxycall', objs=objs, clients=clients, ops=steps,
+    return dict(kind='proxycall', objs=objs, clients=clients, ops=steps, two_servers=two, authkey='abc' if akey else None,
                 proc_cls=rng.choice(['mpservice', 'stdlib']), seed=rng.randrange(1 << 30))
 
 
@@ -486,6 +493,38 @@ def boundary_cases():
     for pc in ('mpservice', 'stdlib'):
         out.append(dict(kind='proxycall', objs=hobjs, clients=['0', '1', '2'], ops=d + _finals(hobjs, '2'), proc_cls=pc,
                         seed=0, boundary='hub-stores-inplace-storm'))
+    # two manager servers: a proxy of an A-hosted list as argument / stored value / echo payload of calls on B-hosted
+    # objects, used inside B's server, read back by another process; and a manager with an explicit authkey
+    sl2 = ['__getitem__', [{'$slice': [None, None, None]}]]
+    tobjs = [dict(addr=0, kind='list', init=[1], srv='A'), dict(addr=1, kind='dict', srv='B'),
+             dict(addr=2, kind='counter', init=0, log=3, srv='B'), dict(addr=4, kind='list', init=[], srv='B'),
+             dict(addr=5, kind='counter', init=0, log=6, srv='A')]
+    t = [dict(who='0', h='o1', addr=1, m='dset', py=['__setitem__', ['a', {'$h': 'o0'}]], margs=['a', {'$h': 'o0'}]),
+         dict(who='1', h='o1', addr=1, m='dget', py=['__getitem__', ['a']], margs=['a'], keep=True),
+         dict(who='1', h='o4', addr=4, m='append', py=['append', [{'$h': 'o0'}]], margs=[{'$h': 'o0'}]),
+         dict(who='0', h='o2', addr=2, m='poke', py=['poke', [{'$h': 'o0'}, 5]], mref=0, margs=[5]),
+         dict(who='1', h='o0', addr=0, m='slice', py=sl2, keep=True),
+         dict(who='1', h='o2', addr=2, m='pokePop', py=['poke_pop', [{'$h': 'o0'}]], mref=0, keep=True),
+         dict(who='0', h='o2', addr=2, m='echo', py=['echo', [{'$h': 'o0'}, 1, {'$h': 'o4'}]], mlist=[{'$h': 'o0'}, 1, {'$h': 'o4'}], keep=True),
+         dict(who='0', h='o2', addr=2, m='relayFail', py=['relay_fail', [{'$h': 'o5'}, 'value', [1, 'p']]], mref=5, fail='value'),
+         dict(who='1', h='o5', addr=5, m='relayFail', py=['relay_fail', [{'$h': 'o2'}, 'other', None]], mref=2, fail='other'),
+         dict(who='1', h='o4', addr=4, m='getitem', py=['__getitem__', [0]], mint=[0], keep=True),
+         dict(who='0', h='o0', addr=0, m='append', py=['append', [{'$h': 'o1'}]], margs=[{'$h': 'o1'}]),
+         dict(who='1', h='o1', addr=1, m='dpop', py=['pop', ['a']], margs=['a'], keep=True)]
+    out.append(dict(kind='proxycall', objs=tobjs, clients=['0', '1'], ops=t + _finals(tobjs), proc_cls='mpservice', seed=0,
+                    two_servers=True, authkey=None, boundary='two-servers'))
+    kobjs = [dict(addr=0, kind='list', init=[], srv='A'), dict(addr=1, kind='dict', srv='A'), dict(addr=2, kind='ns', srv='A')]
+    ka = [dict(who='0', h='o0', addr=0, m='append', py=['append', [{'$h': 'o1'}]], margs=[{'$h': 'o1'}]),
+          dict(who='0', h='o0', addr=0, m='getitem', py=['__getitem__', [0]], mint=[0], keep=True),
+          dict(who='1', h='o0', addr=0, m='getitem', py=['__getitem__', [0]], mint=[0], keep=True),
+          dict(who='1', h='o1', addr=1, m='dset', py=['__setitem__', ['k', {'$h': 'o0'}]], margs=['k', {'$h': 'o0'}]),
+          dict(who='0', h='o1', addr=1, m='dpop', py=['pop', ['k']], margs=['k'], keep=True),
+          dict(who='1', h='o2', addr=2, m='nset', attr=['setattr', 'x', {'$h': 'o1'}], mnat=[0], margs=[{'$h': 'o1'}]),
+          dict(who='0', h='o2', addr=2, m='nget', attr=['getattr', 'x'], mnat=[0], keep=True),
+          dict(who='1', h='o0', addr=0, m='slice', py=sl2, keep=True)]
+    for pc in ('mpservice', 'stdlib'):
+        out.append(dict(kind='proxycall', objs=kobjs, clients=['0', '1'], ops=ka + _finals(kobjs), proc_cls=pc, seed=0,
+                        two_servers=False, authkey='abc', boundary='explicit-authkey'))
     for name, ops, clients in (('raise-and-go-on', a, ['0', '1']), ('managed-view', b, ['0', '1', '2'])):
         for pc in ('mpservice', 'stdlib'):
             out.append(dict(kind='proxycall', objs=objs, clients=clients, ops=ops + _finals(objs, clients[-1]),
@@ -503,7 +542,7 @@ def director_case(case):
     for o in case['objs']:
         args = {'list': [o.get('init', [])], 'dict': [], 'ns': [], 'value': ['i', o.get('init', 0)],
                 'counter': [o.get('init', 0)], 'hub': []}[o['kind']]
-        steps.append(dict(who='0', cmd=['create', typeid[o['kind']], args, f'o{o["addr"]}'],
+        steps.append(dict(who='0', cmd=['create', typeid[o['kind']], args, f'o{o["addr"]}', o.get('srv', 'A')],
                           new=[[f'o{o["addr"]}', o['addr'], 'plain']]))
     pairs = [[f'o{o["addr"]}', f'o{o["addr"]}'] for o in case['objs']]
     for c in case['clients'][1:]:
@@ -537,7 +576,7 @@ def director_case(case):
         if op.get('new'):
             st['new'] = op['new']
         steps.append(st)
-    return dict(steps=steps, op_timeout=20.0), n_setup
+    return dict(steps=steps, op_timeout=20.0, two_servers=bool(case.get('two_servers')), authkey=case.get('authkey')), n_setup
 
 
 # ----------------------------------------------------------------------------------------------
@@ -764,6 +803,8 @@ def run_case(case):
                 rule = 'inplace-rebinds'       # after `x op= v` the name is no longer (a proxy of) the hosted object
             elif got[0] == 'exc' and want[0] == 'ret' and got[1] == 'AttributeError' and not r['$raised'].get('remote'):
                 rule = 'method-missing'        # the proxy lacks a method its hosted object has
+            elif got[0] == 'exc' and want[0] == 'ret' and got[1] == 'RemoteError' and 'request = recv()' in str(got[2]):
+                rule = 'argument-not-delivered'   # the request could not even be un-pickled in the server
             elif got[0] == 'exc' and want[0] == 'ret' and got[1] == 'RemoteError' and 'KeyError' in str(got[2]):
                 rule = 'dead-proxy'            # the referent of a live proxy is gone from the server
             elif got[0] == 'exc' and want[0] == 'ret':
@@ -774,7 +815,12 @@ def run_case(case):
                 rule = 'state' if op.get('final') else 'result'
             mon.append(dict(prop='C14', rule=rule, detail=f'{where}: through the proxy {got}, directly {want}'))
             break
-        if got[0] == 'exc' and tb_missing is None and r['$raised'].get('tb_frames') != want_frames:
+        got_frames = r['$raised'].get('tb_frames') if got[0] == 'exc' else None
+        if got[0] == 'exc' and op.get('m') == 'relayFail' and case.get('two_servers'):
+            # a call relayed to an object of the OTHER server arrives there over a connection: its server-side traceback
+            # comes back as the cause of the relaying server's, i.e. printed first — same frames, other order
+            got_frames, want_frames = sorted(got_frames or []), sorted(want_frames or [])
+        if got[0] == 'exc' and tb_missing is None and got_frames != want_frames:
             # "carries the server-side traceback": the frames of the hosted classes' own methods, down to the
             # line that raised, must be those of the same call made directly
             mon.append(dict(prop='C14', rule='traceback',
